@@ -8,7 +8,7 @@ import vlib
 import surface
 import progrun
 
-IMPORTS = "From NadaV.Gen Require Import GenScalar.\nFrom NadaV.Spec Require Import MirSpec Denote.\n"
+IMPORTS = "From NadaV.Gen Require Import GenScalar.\nFrom NadaV.Spec Require Import MirSpec Denote ProgSpec Taint.\n"
 AGREE = "(fun cs => indices_where (fun c : program * ioutcome => negb (outcome_agrees (run G (fst c)) (snd c))) cs 0%Z)"
 
 
@@ -149,3 +149,45 @@ def standard_cov(ctx, progs, results, ntargeted):
         samples=[dict(python_source=surface.to_python(progs[i]),
                       outcome=("accepted" if "ok" in results[i] else results[i]["exc"])) for i in (0, len(progs) // 2, len(progs) - 1)],
         traces_validated_against_impl=len(progs), input_distribution=dist)
+
+
+def on_prog_outcome(pred):
+    """pred : program -> bool ; failing = pred holds but the implementation ACCEPTED the program"""
+    return (f"(fun cs => indices_where (fun c : program * ioutcome => match snd c with IOk m => {pred} (fst c) "
+            f"| _ => false end) cs 0%Z)")
+
+
+def has_literal_param(stmts):
+    return any(s["k"] == "def" and (any(t[0] == "s" and t[1] == "Const" for _, t in s["params"]) or has_literal_param(s["body"]))
+               for s in stmts)
+
+
+def has_kwargs(stmts):
+    return any((s["k"] == "call" and s.get("kwargs")) or (s["k"] == "def" and has_kwargs(s["body"])) for s in stmts)
+
+
+def generic_run(ctx, preds, classify, n_quick=300, n_thorough=6000, level="proof"):
+    """shared body of the program-level checks: extract, prove, validate preds on implementation MIRs, tie the model"""
+    import targeted
+    ok_x = vlib.step_extract(ctx)
+    ok_p = vlib.step_prove(ctx) if ok_x else False
+    n = n_quick if ctx.tier == "quick" else n_thorough
+    tg = targeted.all_families()
+    progs, results, bad = run_programs(ctx, n, tg, preds)
+    nacc = sum(1 for r in results if "ok" in r)
+    for name, idxs in bad.items():
+        ctx.note(f"validate: {name} evaluated in Coq on {len(progs)} programs ({nacc} accepted by the implementation): {len(idxs)} violating")
+        for i in idxs:
+            key, what = classify(name, progs[i], results[i])
+            vlib.report_failure(ctx, key, what, replay_payload(progs[i], results[i]))
+    if ok_x:
+        dis = tie_model(ctx, progs, results)
+        if dis is not None:
+            ctx.note(f"tie: model vs implementation on {len(progs)} programs: {len(dis)} disagree")
+            ctx.cov["model_impl_disagreements"] = len(dis)
+            if dis:
+                ctx.broken.append(dict(kind="correspondence", what="model and implementation disagree",
+                                       detail=surface.to_python(progs[dis[0]])))
+    standard_cov(ctx, progs, results, len(tg))
+    ctx.cov["disagreements_checked"] = len(progs)
+    return vlib.finish(ctx, level=level)
